@@ -361,6 +361,10 @@ func (r Wrapper) getPresentationDefinitionFromRequest(ctx context.Context, param
 		if err != nil {
 			return nil, &oauth.OAuth2Error{Code: oauth.InvalidRequest, Description: "invalid presentation_definition", InternalError: err}
 		}
+		if presentationDefinition == nil {
+			// JSON null
+			return nil, &oauth.OAuth2Error{Code: oauth.InvalidRequest, Description: "invalid presentation_definition"}
+		}
 	} else {
 		presentationDefinitionURI := params.get(oauth.PresentationDefUriParam)
 		presentationDefinition, err = r.auth.IAMClient().PresentationDefinition(ctx, presentationDefinitionURI)
